@@ -112,7 +112,10 @@ def run(ctx):
     mts = _calling(gm, attr="_merge_to")
     ctx.check("destination-locked-before-read", f"{TG}:InterTags.merge", bool(lk) and bool(mts) and gm.always_before(lk, mts)[0] and not any(call_attr(c) == "get_tag_dict" and "target" in (call_recv(c) or "") for c in calls_in(fm)), "the target branch is write-locked before its tags are read and reconciled (no read of the target's tags outside _merge_to)", message="the target's tag dictionary is read before the target branch is write-locked")
     mt = [c for c in calls_in(fm) if call_attr(c) == "_merge_to"]
-    ctx.check("master-tags-reconciled", f"{TG}:InterTags.merge", len(mt) == 2 and any(norm(c.args[0]) == "master.tags" for c in mt) and "None if ignore_master else self.target.branch.get_master_branch()" in norm(fm), "the master's tags are reconciled too unless ignore_master")
+    from ..astutil import bound_names
+
+    _mst = bound_names(fm, lambda t, n: t == "None if ignore_master else self.target.branch.get_master_branch()")
+    ctx.check("master-tags-reconciled", f"{TG}:InterTags.merge", len(mt) == 2 and len(_mst) == 1 and any(norm(c.args[0]) == f"{_mst[0]}.tags" for c in mt), "the master's tags are reconciled too unless ignore_master")
 
 
 MUTANTS = [
